@@ -929,6 +929,15 @@ def fixed_histories():
                              ('select', 2, 0, False), ('fetch', 2), ('close', 2),
                              A(1, 0, (4, False, False)), ('close', 0), A(1, 0, (5, False, False)),
                              ('select', 1, 0, False), ('fetch', 1)]),
+        # a message delivered by another connection while A has the mailbox selected, copied
+        # by A into the mailbox it has selected, then B SELECTs read-write: the copy is
+        # \Recent for A only (maildir keeps the unclaimed source in new/: seeded C17-2)
+        ('copy_unclaimed_source', [('select', 0, 0, False), A(1, 0, (1, False, False)),
+                                   ('fetch', 0), ('copy', 0, None, 0), ('fetch', 0),
+                                   ('select', 2, 0, False), ('fetch', 2), ('fetch', 0),
+                                   A(1, 0, (2, False, False)), ('noop', 0), ('copy', 0, [3], 0),
+                                   ('move', 0, [1], 0), ('fetch', 0), ('select', 1, 0, False),
+                                   ('fetch', 1)]),
         # STORE with \Recent in every mode
         ('store_recent', [A(0, 0, (1, False, False), (2, False, False)), ('select', 0, 0, False),
                           ('fetch', 0), ('store', 0, None, 'del', False, True), ('fetch', 0),
@@ -964,6 +973,112 @@ async def stale_inbox_scenario() -> dict | None:
         return None
     finally:
         await w.close_all()
+
+
+async def contended_maildir_scenario(variant: str) -> dict:
+    """Two connections add messages to the same maildir mailbox while an
+    outside agent holds `dovecot-uidlist.lock` for a moment (the harness
+    creates the lock file at the instant the first message file has been
+    written, i.e. between a writer's reset and its uidlist update, and removes
+    it a few milliseconds later).  Every UID the server announces must be
+    unique and denote the message it was announced for (C04; seeded C04-1).
+    Returns {'fails': [...], 'transcript': [...]}."""
+    import os
+    from pymap.backend.maildir.mailbox import Maildir
+    env = await _mk_env(True).start()
+    w = World(env, b'u1', b'pass', maildir=True)
+    mon = Monitor()
+    t = [0]
+
+    def feed(op, ob):
+        w.hist.append((op, ob))
+        mon.step(t[0], op, ob)
+        t[0] += 1
+
+    async def do(op):
+        ob = await w._do(op)
+        feed(op, ob)
+        return ob
+    inbox_path = os.path.realpath(os.path.join(env.base, 'u1'))
+    lock_path = os.path.join(inbox_path, 'dovecot-uidlist.lock')
+    armed = [0]
+    orig = Maildir.add
+
+    def unlock():
+        try:
+            os.unlink(lock_path)
+        except FileNotFoundError:
+            pass
+
+    def add(self, message):
+        key = orig(self, message)
+        if armed[0] > 0 and os.path.realpath(self._path) == inbox_path:
+            armed[0] -= 1
+            try:
+                with open(lock_path, 'x'):
+                    pass
+            except FileExistsError:
+                pass
+        return key
+    try:
+        await do(('append', 0, 0, [(1, False, False)]))
+        await do(('create', 0, 1))
+        await do(('append', 0, 1, [(2, False, False), (3, False, False)]))
+        await do(('select', 1, 1, False))
+        await do(('fetch', 1))
+        # every connection has resolved INBOX before (its MailboxSet caches the
+        # MailboxData; a first resolution would wait for the lock earlier, in
+        # UidList.with_init)
+        await do(('status', 2, 0))
+        await do(('status', 3, 0))
+        await do(('status', 1, 0))
+        if variant == 'append+append':
+            jobs = [('append', 2, 0, [(10, False, False), (11, False, False)]),
+                    ('append', 3, 0, [(12, False, False)])]
+        elif variant == 'copy+append':
+            jobs = [('copy', 1, None, 0), ('append', 3, 0, [(12, False, False)])]
+        else:
+            jobs = [('append', 2, 0, [(10, False, False), (11, False, False)]),
+                    ('append', 3, 0, [(12, False, False)]),
+                    ('copy', 1, None, 0)]
+        Maildir.add = add
+        armed[0] = 1
+        done: list = []
+
+        async def job(op):
+            ob = await w._do(op)
+            done.append((op, ob))
+        # the first writer runs until it waits for the lock the outside agent
+        # took right after its message file was written; then the others start
+        # and wait too; then the agent lets go
+        tasks = [asyncio.create_task(job(jobs[0]))]
+        for _ in range(2000):
+            if os.path.exists(lock_path) or tasks[0].done():
+                break
+            await asyncio.sleep(0)
+        for op in jobs[1:]:
+            tasks.append(asyncio.create_task(job(op)))
+            for _ in range(50):
+                await asyncio.sleep(0)
+        await asyncio.sleep(0.003)
+        unlock()
+        await asyncio.wait_for(asyncio.gather(*tasks), 60)
+        Maildir.add = orig
+        unlock()
+        for op, ob in done:
+            feed(op, ob)
+        await do(('select', 9, 0, False))
+        await do(('fetch', 9))
+        await do(('append', 0, 0, [(20, False, False)]))
+        await do(('fetch', 9))
+        await do(('status', 0, 0))
+    finally:
+        if Maildir.__dict__.get('add') is add:
+            Maildir.add = orig
+        unlock()
+        await w.close_all()
+        env.close()
+    return {'fails': mon.fail, 'hist': w.hist, 'crashes': w.crashes}
 
 
 def explain(prop: str, case: str, full: bool) -> str:
@@ -1073,6 +1188,17 @@ def run_check(ctx, prop: str) -> None:
             ctx.count(('uidset', tuple(l)))
         for i in ctx.run_cases('uidset', HEADER, 'list N * bytes', ucases, 'chk_uidset')[:3]:
             ctx.disagreement('uidset', {'case': ucases[i]})
+    # ---- maildir writers contending for dovecot-uidlist.lock
+    if not full:
+        for variant in ('append+append', 'copy+append', 'three'):
+            res = run(contended_maildir_scenario(variant), timeout=120)
+            ctx.count(('contended', variant))
+            for clause, what, obs in res['fails']:
+                if clause in clauses:
+                    ctx.failure(clause, f'maildir, writers contending for the uidlist lock '
+                                f'({variant}): ' + what,
+                                {'scenario': 'contended_maildir_scenario', 'variant': variant,
+                                 'hist': hist_json(res['hist'])}, obs)
     # ---- the open finding
     if not full:
         obs = run(stale_inbox_scenario(), timeout=60)
@@ -1104,6 +1230,15 @@ def run_check(ctx, prop: str) -> None:
 
 def replay_history(ctx, obj) -> int:
     from .pymap_env import run
+    if obj.get('scenario') == 'contended_maildir_scenario':
+        res = run(contended_maildir_scenario(obj['variant']), timeout=120)
+        for t, (op, ob) in enumerate(res['hist']):
+            print(t, op, '->', ob)
+        print('monitor:', res['fails'])
+        return 1 if res['fails'] else 0
+    if obj.get('scenario') == 'stale_inbox_scenario':
+        print(run(stale_inbox_scenario(), timeout=60))
+        return 0
     ops = [tuple(tuple(y) if isinstance(y, list) and y and not isinstance(y[0], list) else y
                  for y in op) for op, _ob in obj['hist']]
 
